@@ -91,7 +91,11 @@ func typeKey(t types.Type) string {
 
 func shortType(t types.Type) string {
 	t = unwrapT(t)
-	return types.TypeString(t, func(p *types.Package) string { return p.Name() })
+	s := types.TypeString(t, func(p *types.Package) string { return p.Name() })
+	s = reCanonByte.ReplaceAllString(s, "uint8")
+	s = reCanonRune.ReplaceAllString(s, "int32")
+	s = reCanonAny.ReplaceAllString(s, "interface{}")
+	return s
 }
 
 func isTimeType(t types.Type) bool {
